@@ -99,8 +99,32 @@ def _replay_one(rec):
     return bad
 
 
-def record(rng, n):
+def long_tail_mask(rng, k, length):
+    """A mask whose induced graph is one information-free 2-cycle with a tail of `length` out-degree-1 vertices leading into it
+    (built backwards: each new vertex has exactly one arc into the part built so far and nothing points back at it)."""
+    N = 4 ** k
+    a = sum((0 if i % 2 == 0 else 1) * 4 ** (k - 1 - i) for i in range(k))      # ACAC...
+    b = sum((1 if i % 2 == 0 else 0) * 4 ** (k - 1 - i) for i in range(k))      # CACA...
+    S, head = {a, b}, a
+    succ = lambda v: [(4 * v + j) % N for j in range(4)]
+    pred = lambda v: [v // 4 + f * (N // 4) for f in range(4)]
+    for _ in range(length):
+        cands = [p for p in pred(head) if p not in S and sum(1 for x in succ(p) if x in S) == 1 and not any(x in S for x in pred(p))]
+        if not cands:
+            break
+        head = rng.choice(cands)
+        S.add(head)
+    return sorted(S)
+
+
+def record(rng, n, tail=None):
     cases = []
+    if tail:
+        k, length = tail
+        m = long_tail_mask(rng, k, length)
+        g = run_coding(k, m, 1, as_int=False)
+        cases.append({"kind": "coding", "k": k, "mask": m, "t": 1, "out": g["out"], "verts": g["verts"], "live": g["live"], "twin": [], "sup": 0,
+                      "unchanged": g["unchanged"], "twin_note": ""})
     for i in range(n):
         k = rng.choice([3, 3, 4, 4, 5])
         N = 4 ** k
@@ -139,7 +163,7 @@ def run(ctx):
             ctx.violation(clause, {"k": 2, "mask": rec["m"], "t": rec["t"]}, exp, impl.jsonable(obs))
     ctx.sample({"flow": "A", "record": [x for x in recs if x["t"] == 1 and x["r"] and len(x["r"]) < len(x["m"])][1000]})
     rng = random.Random(ctx.seed * 2147483629 % (2 ** 31) + 3)
-    cases = record(rng, 40 if ctx.quick else 400)
+    cases = record(rng, 40 if ctx.quick else 400, tail=(7, 1300) if ctx.quick else (8, 2500))
     path = os.path.join(ctx.workdir, "c03_trace.json")
     with open(path, "w") as f:
         json.dump({"cases": cases}, f)
